@@ -330,6 +330,7 @@ class Client:
         self.side = self.boss._side
         self.svc = self.rc._connector
         self.deferred_results = {}
+        self._trace_machines()
         self.rx_log = []        # server messages delivered to this client, in order
         self.closed_when = None
         world.clients.append(self)
@@ -351,6 +352,21 @@ class Client:
             d.addCallbacks(lambda m: (self.ev.append(("message", m)), next_msg()),
                            lambda f: self.ev.append(("failed:message", f.type.__name__)))
         next_msg()
+
+    def _trace_machines(self):
+        """coverage: which (machine, state, input) rows of the Automat tables the runs exercise (Automat's own set_trace hook)"""
+        b = self.boss
+        ms = dict(Boss=b, Nameplate=b._N, Mailbox=b._M, Send=b._S, Order=b._O, Key=b._K, SortedKey=b._K._SK, Receive=b._R, Lister=b._L,
+                  Allocator=b._A, Input=b._I, Code=b._C, Terminator=b._T)
+        cov = self.world.transitions
+        for name, o in ms.items():
+            def tracer(old_state, input, new_state, name=name):
+                cov.add((name, old_state, input))
+                return None
+            try:
+                o.set_trace(tracer)
+            except Exception:
+                pass
 
     # -- guarded entry points -------------------------------------------------
     def _call(self, what, f, *a, **kw):
@@ -442,6 +458,7 @@ class World:
         self.pake_inputs = []
         self.pake_table = {}
         self.logged = []        # twisted log.err / log.msg(isError) events during the run
+        self.transitions = set()
         self.unhandled = []
         self._ctx = None
 
